@@ -7,7 +7,9 @@
 //! orders through the verif-hooks gates, cancellation aborts the calling task at each probe point.
 //! Oracle: bounded progress (15 s window + heartbeat), later calls fail, pending table empty at
 //! quiescence, unique tokens (a call only ever gets its own response), subscriber end-of-stream,
-//! no reader killed by a panic.
+//! no reader killed by a panic. `AsyncClient::forward_message*` (caller-chosen request ids, its own
+//! registration/cleanup path) is driven as a call kind of its own through the same ways of ending
+//! without a response; there a retry under the same id must be accepted and get its own response.
 
 use crate::common::*;
 
@@ -290,14 +292,23 @@ pub(crate) mod imp {
                             format!("call#{i} sent token {} and was handed a response carrying {} ({ctx}); trace: {}", c.token, v["t"], ps_trace()),
                             replay.clone(),
                         );
-                    } else if id.map(|id| !srv.sent_full.contains(&id)).unwrap_or(true) {
+                    } else if id.map(|id| !srv.sent_full.contains(&id)).unwrap_or(true) || !srv.sent_tokens.contains(&c.token) {
                         rep.violation(
                             format!("C06:phantom-response:{}:{ctx}", kind.name()),
                             format!("call#{i} (token {}) returned Ok although the fake server never sent a complete response for it", c.token),
                             replay.clone(),
                         );
+                    } else if c.fwd_id.is_some() && v["_id"].as_u64() != c.fwd_id {
+                        rep.violation(
+                            format!("C06:forward-id-mismatch:{}:{ctx}", kind.name()),
+                            format!("forward#{i} (token {}) was issued with request id {:?} and was handed a response with header id {}", c.token, c.fwd_id, v["_id"]),
+                            replay.clone(),
+                        );
                     } else {
                         rep.count("calls_returned_own_token", 1);
+                        if c.fwd_id.is_some() {
+                            rep.count("forwards_returned_own_token", 1);
+                        }
                     }
                 }
                 Some(CallRes::Err(e)) => {
@@ -403,12 +414,22 @@ pub(crate) mod imp {
         }
 
         let mut calls = Calls::new();
+        // async client: every third in-flight call is a FORWARDED frame with a caller-chosen id
+        // (`forward_message` / `forward_message_with_timeout`), the rest are ordinary `call_json*`
+        let mut fwd_ids: Vec<u64> = vec![];
         for i in 0..n {
             let tok = env.token();
             let pad = rng.usize_below(40);
-            calls.launch(env, &cli, tok, pad, tmode.timeout_for(i));
+            if kind == Kind::Async && i % 3 == 1 {
+                let id = env.fwd_id();
+                fwd_ids.push(id);
+                calls.launch_fwd(env, &cli, id, tok, pad, tmode.timeout_for(i), false);
+            } else {
+                calls.launch(env, &cli, tok, pad, tmode.timeout_for(i));
+            }
         }
         rep.count("calls_in_flight_at_fault", n as u64);
+        rep.count("forwards_in_flight_at_fault", fwd_ids.len() as u64);
 
         // reach the protocol step
         if fault.before_read() {
@@ -505,7 +526,18 @@ pub(crate) mod imp {
             let (t1, t2) = (env.token(), env.token());
             let l1 = calls.launch(env, &cli, t1, 3, None);
             let l2 = calls.launch(env, &cli, t2, 3, Some(Duration::from_secs(40)));
-            let later = [l1, l2];
+            let mut later = vec![l1, l2];
+            if kind == Kind::Async {
+                // a later FORWARD too: a retry under the id of a forward that was in flight at the fault
+                // (a fresh id when there was none), alternately with and without a timeout
+                let t3 = env.token();
+                let id = match fwd_ids.last() {
+                    Some(id) => *id,
+                    None => env.fwd_id(),
+                };
+                later.push(calls.launch_fwd(env, &cli, id, t3, 3, if case % 2 == 0 { None } else { Some(Duration::from_secs(40)) }, false));
+                rep.count("later_forwards_after_fault", 1);
+            }
             let miss2 = calls.wait(&later, WINDOW);
             if !miss2.is_empty() {
                 report_hang(rep, env, "later-call-hang", kind, &fname, &miss2, &calls, &replay);
@@ -570,7 +602,9 @@ pub(crate) mod imp {
              {1,47,48,mid-query,mid-body,last-1}, 11 malformed-header kinds incl. wrapping sums and >=2^62 lengths with the \
              connection held open, WebSocket text/close/truncated/trailing/empty frames) x (0..16 calls in flight) x (timeout mode); \
              plus gate-forced timeout-vs-response orders, task abort at every probe point, and faults landing while a caller \
-             holds the writer lock. distinct = executed (kind, fault, in-flight, timeout-mode) cells and (kind, order|trigger, \
+             holds the writer lock; plus FORWARDED frames with caller-chosen ids (AsyncClient::forward_message[_with_timeout]) as a \
+             call kind of their own: in flight at every fault of the table, timed out in the forced reader-vs-timeout orders, \
+             task-aborted / future-dropped at every probe point, each followed by a retry under the SAME id. distinct = executed (kind, fault, in-flight, timeout-mode) cells and (kind, order|trigger, \
              bystanders) schedules",
         );
         let stage = args.stage.as_str();
@@ -587,9 +621,9 @@ pub(crate) mod imp {
         quiet_panics(true);
         probes_install();
         let t0 = std::time::Instant::now();
-        // wall caps (normal runs stay far below: quick ~25 s, thorough ~5.5 min)
+        // wall caps (normal runs stay below: quick ~28 s, thorough ~6.8 min)
         let fault_cap = Duration::from_secs(if thorough { 250 } else { 100 });
-        env.deadline = t0 + Duration::from_secs(if thorough { 420 } else { 160 });
+        env.deadline = t0 + Duration::from_secs(if thorough { 450 } else { 160 });
 
         if matches!(stage, "main" | "faults") {
             let ns: Vec<usize> = if thorough { (0..=16).collect() } else { vec![0, 1, 2, 5, 16] };
@@ -636,6 +670,13 @@ pub(crate) mod imp {
         }
         if matches!(stage, "main" | "held") && !env.stop() {
             gates::run_held(&mut env, &mut rep, &mut st, &mut rng, args);
+        }
+        // forwarded frames (after the older stages so that their random choices stay what they were)
+        if matches!(stage, "main" | "forward") && !env.stop() {
+            gates::run_fwd_races(&mut env, &mut rep, &mut st, &mut rng, args);
+        }
+        if matches!(stage, "main" | "forward") && !env.stop() {
+            gates::run_fwd_cancels(&mut env, &mut rep, &mut st, &mut rng, args);
         }
         probes_remove();
         quiet_panics(false);
